@@ -234,7 +234,7 @@ func checkC14(a *checkArgs, r *Result) error {
 	r.Rule = "N in {2,8,32} goroutines x GOMAXPROCS in {1,4,16}, each goroutine driving its own xz / LZMA2 / LZMA writer and reader over generated (data, config) cases, the same case in two goroutines at once, with yield points, inside a race-detector build of the harness; oracle: every goroutine's compressed bytes equal the sequential reference (and a repeated sequential run), round trip intact, no race report. Non-trivial: every case (input through a writer and a reader); distinct by case. Lean side: Props/C14.lean over the regenerated table of package-level variables, logger methods and imports."
 	race := os.Getenv("XZH_RACE")
 	if race == "" {
-		race = "/verif/harness/xzh-race"
+		race = verifRoot() + "/harness/xzh-race"
 	}
 	if _, err := os.Stat(race); err != nil {
 		return fmt.Errorf("race-instrumented harness %s missing: %v", race, err)
